@@ -6,6 +6,7 @@ package main
 // the documents read in THAT load: since c555d93 the loader keeps nothing from one load to the next.
 
 import (
+	"encoding/json"
 	"bytes"
 	"fmt"
 	"net/url"
@@ -56,6 +57,12 @@ func c11DeriveHistory(c hx.Case) hx.Case {
 		entry := jstr(s, "entry")
 		if entry == "reader" {
 			entry = "data"
+		}
+		if entry == "resolveIn" {
+			// the exported ResolveRefsIn(doc, location) called directly on a document the caller unmarshalled; on a used Loader it
+			// does not reset. Generated with the switch off only, where the model of a located in-memory load describes it (the guard
+			// denies before any state of earlier loads is consulted); the step is judged against the SPEC only (see cmpC11History)
+			entry = "dataWithPath"
 		}
 		st := map[string]any{"allowed": jbool(s, "allowed"), "entry": entry, "rootFile": a, "rootInStore": true, "rootLoc": nil, "store": []any{}}
 		if entry != "data" {
@@ -116,6 +123,11 @@ func runC11History(c hx.Case) any {
 			_, err = loader.LoadFromDataWithPath(body, ru)
 		case "reader":
 			_, err = loader.LoadFromIoReader(bytes.NewReader(body))
+		case "resolveIn":
+			doc := &openapi3.T{}
+			if err = json.Unmarshal(body, doc); err == nil {
+				err = loader.ResolveRefsIn(doc, ru)
+			}
 		default:
 			_, err = loader.LoadFromData(body)
 		}
@@ -141,12 +153,21 @@ func cmpC11History(c hx.Case, im map[string]any, model map[string]any, spec map[
 	if len(isteps) != len(msteps) || len(isteps) != len(ssteps) {
 		return hx.Verdict{IM: false, IS: true, Detail: "history: step counts differ"}
 	}
+	g, _ := c["g"].(map[string]any)
+	gsteps := jlist(g["steps"])
 	for i := range isteps {
+		specOnly := false
+		if i < len(gsteps) {
+			gs, _ := gsteps[i].(map[string]any)
+			// a direct ResolveRefsIn on a used Loader keeps the in-progress marks and the documents cache of the earlier call (it
+			// does not reset): not modelled — the step's reads are judged against the spec only
+			specOnly = jstr(gs, "entry") == "resolveIn"
+		}
 		is, _ := isteps[i].(map[string]any)
 		ms, _ := msteps[i].(map[string]any)
 		ss, _ := ssteps[i].(map[string]any)
 		ilog, mlog := toStrs(is["log"]), toStrs(ms["log"])
-		if v.IM && (!sameStrs(ilog, mlog, true) || jbool(is, "ok") != jbool(ms, "ok")) {
+		if v.IM && !specOnly && (!sameStrs(ilog, mlog, true) || jbool(is, "ok") != jbool(ms, "ok")) {
 			v.IM = false
 			v.Detail = fmt.Sprintf("load %d of the history: reads impl %v ok=%v (%s) vs model %v ok=%v", i+1, ilog, jbool(is, "ok"), jstr(is, "err"), mlog, jbool(ms, "ok"))
 		}
@@ -214,6 +235,20 @@ func c11GenHistories(ctx *hx.Ctx, emit func(hx.Case)) {
 					{c11Step(aEntry, aLoc, al[0]), c11Step("dataWithPath", bLoc, al[1])},
 					{c11Step(aEntry, aLoc, al[0]), c11Step("data", bLoc, al[1]), c11Step("dataWithPath", aLoc, al[0])},
 					{c11Step("dataWithPath", bLoc, al[0]), c11Step("file", bLoc, al[1]), c11Step("data", bLoc, al[1])},
+				}
+				if al[1] == false {
+					// the switch changes between calls and the later call is the exported ResolveRefsIn, called directly (switch off)
+					for _, o := range [][]map[string]any{
+						{c11Step(aEntry, aLoc, al[0]), c11Step("resolveIn", bLoc, false)},
+						{c11Step("dataWithPath", aLoc, al[0]), c11Step("resolveIn", bLoc, false)},
+						{c11Step("data", bLoc, al[0]), c11Step("resolveIn", aLoc, false)},
+						{c11Step(aEntry, aLoc, al[0]), c11Step("resolveIn", aLoc, false), c11Step("data", bLoc, true)},
+						{c11Step("resolveIn", bLoc, false), c11Step(aEntry, aLoc, true), c11Step("resolveIn", bLoc, false)},
+					} {
+						if c := c11HistCase(files, o...); c != nil {
+							emit(c)
+						}
+					}
 				}
 				for _, o := range orders {
 					i++
